@@ -322,7 +322,8 @@ func genLattice(seed int64, part, parts int, emit func(*Case) bool) {
 								if idx%parts != part {
 									continue
 								}
-								cs := latticeCase(r, latticeCell{t, mask, depth, pipe, car.car, car.path}, sch, syn)
+								cs, _ := latticeCase(r, latticeCell{t, mask, depth, pipe, car.car, car.path}, sch, syn)
+								cs.Prefill = r.Intn(4) == 0 // the struct handed over need not be zeroed
 								if !emit(cs) {
 									return
 								}
@@ -333,9 +334,143 @@ func genLattice(seed int64, part, parts int, emit func(*Case) bool) {
 			}
 		}
 	}
+	genHistoryLattice(r, &idx, part, parts, emit)
 }
 
-func latticeCase(r *rand.Rand, c latticeCell, sch [4]*Val, syn int) *Case {
+// genHistoryLattice: the struct value has a past. Per type x mask x depth x tag syntax:
+// (a) every leaf pre-filled with garbage before NewFlagSet, for the first value schemes and every
+// empty-text scheme; (b) reload - an earlier NewFlagSet+Parse round on the same struct value in
+// which the field under test was mentioned by each of the 8 subsets of {JSON, env, cli} (the tag is
+// part of the type and stays), then the round under test, which alone decides the expected values.
+func genHistoryLattice(r *rand.Rand, idx *int, part, parts int, emit func(*Case) bool) {
+	withJSON := latticeCarriers[:5]
+	for t := 0; t < nTypes; t++ {
+		for mask := 0; mask < 16; mask++ {
+			for depth := 0; depth < 3; depth++ {
+				for _, pipe := range []bool{false, true} {
+					all := valueSchemes(t, mask, pipe)
+					var pre, rel [][4]*Val // schemes for (a) and (b)
+					plain := 0
+					seenEmpty := map[int]bool{}
+					for _, sch := range all {
+						es := -1
+						for s, v := range sch {
+							if v != nil && v.Empty {
+								es = s
+							}
+						}
+						switch {
+						case es >= 0:
+							pre = append(pre, sch)
+							if !seenEmpty[es] {
+								seenEmpty[es] = true
+								rel = append(rel, sch)
+							}
+						case plain < 2:
+							pre = append(pre, sch)
+							if plain == 0 {
+								rel = append(rel, sch)
+							}
+							plain++
+						}
+					}
+					cell := func(n int) latticeCell {
+						cars := latticeCarriers
+						if mask&SrcJSON != 0 {
+							cars = withJSON
+						}
+						car := cars[n%len(cars)]
+						return latticeCell{t, mask, depth, pipe, car.car, car.path}
+					}
+					synOf := func(sch [4]*Val, n int) int {
+						if mask&SrcCli == 0 {
+							return 0
+						}
+						syns := cliSyntaxes(t, sch[3])
+						return syns[n%len(syns)]
+					}
+					for si, sch := range pre {
+						*idx++
+						if *idx%parts != part {
+							continue
+						}
+						cs, _ := latticeCase(r, cell(*idx/parts), sch, synOf(sch, si))
+						cs.Kind, cs.Prefill = "history", true
+						if !emit(cs) {
+							return
+						}
+					}
+					for si, sch := range rel {
+						for m1 := 0; m1 < 8; m1++ {
+							*idx++
+							if *idx%parts != part {
+								continue
+							}
+							cs, target := latticeCase(r, cell(*idx/parts), sch, synOf(sch, si+m1))
+							cs.Kind = "history"
+							cs.Prefill = r.Intn(4) == 0
+							cs.Prior = priorOf(r, cs, func(f *Field) int {
+								if f == target {
+									return m1 << 1
+								}
+								return r.Intn(8) << 1
+							})
+							if !emit(cs) {
+								return
+							}
+						}
+					}
+				}
+			}
+		}
+	}
+}
+
+// priorOf makes an earlier round for the same struct type: same fields and tags (hence the same
+// defaults), but JSON / env / cli mention each field as maskFor says, with values of their own that
+// lead - whenever the type allows it - to another final value than the round under test expects.
+func priorOf(r *rand.Rand, cs *Case, maskFor func(orig *Field) int) *Case {
+	anyJSON := false
+	var clone func(nodes []*Node) []*Node
+	clone = func(nodes []*Node) []*Node {
+		out := make([]*Node, len(nodes))
+		for i, n := range nodes {
+			c := &Node{Name: n.Name}
+			if n.Leaf != nil {
+				f := *n.Leaf // the tag default (Src[0]) is shared, it is never written
+				t := typeIndex(f.Type)
+				f.Mask = n.Leaf.Mask&SrcDef | maskFor(n.Leaf)&(SrcJSON|SrcEnv|SrcCli)
+				f.Src[1], f.Src[2], f.Src[3], f.CliSyn = nil, nil, nil, 0
+				later, _ := expectedOf(t, n.Leaf)
+				for try := 0; try < 8; try++ {
+					fillFrom(r, t, &f, 1)
+					if now, _ := expectedOf(t, &f); f.Mask&^SrcDef == 0 || !equalVal(t, later, now) && !equalVal(t, now, later) {
+						break
+					}
+				}
+				if f.Mask&SrcJSON != 0 {
+					anyJSON = true
+				}
+				c.Leaf = &f
+			} else {
+				c.Kids = clone(n.Kids)
+			}
+			out[i] = c
+		}
+		return out
+	}
+	p := &Case{Kind: "prior", Root: clone(cs.Root), FileName: r.Intn(len(fileNames)), CfgSyn: r.Intn(4),
+		JSONStyle: r.Intn(4), EmptyObj: r.Intn(2) == 0, Decoy: r.Intn(4) == 0, Shuffle: r.Int63()}
+	cars := latticeCarriers
+	if anyJSON {
+		cars = cars[:5]
+	}
+	pick := cars[r.Intn(len(cars))]
+	p.Carrier, p.PathKind = pick.car, pick.path
+	return p
+}
+
+func latticeCase(r *rand.Rand, c latticeCell, sch [4]*Val, syn int) (*Case, *Field) {
 	nm := newNamer()
 	// the field under test
 	target := &Field{Type: typeNames[c.t], Pipe: c.pipe, Mask: c.mask, Src: sch, CliSyn: syn, UsageMode: r.Intn(3)}
@@ -373,7 +508,7 @@ func latticeCase(r *rand.Rand, c latticeCell, sch [4]*Val, syn int) *Case {
 	if r.Intn(4) == 0 {
 		cs.Tail = tails[r.Intn(len(tails))]
 	}
-	return cs
+	return cs, target
 }
 
 var tails = [][]string{{"pos"}, {"--", "-x=1"}, {"pos", "-debug"}, {"--"}, {"-"}, {"", "-port=1"}}
@@ -450,9 +585,17 @@ func randVal(r *rand.Rand, t int) Val {
 
 // fillRandomValues gives every source of the mask a value such that neighbouring sources differ
 // whenever the type allows it; textual sources are empty now and then.
-func fillRandomValues(r *rand.Rand, t int, f *Field) {
+func fillRandomValues(r *rand.Rand, t int, f *Field) { fillFrom(r, t, f, 0) }
+
+// fillFrom does so for the sources from..3 and leaves the lower ones (the tag) as they are.
+func fillFrom(r *rand.Rand, t int, f *Field, from int) {
 	var lower *Val
-	for s := 0; s < 4; s++ {
+	for s := 0; s < from; s++ {
+		if f.Mask&(1<<s) != 0 {
+			lower = f.Src[s]
+		}
+	}
+	for s := from; s < 4; s++ {
 		if f.Mask&(1<<s) == 0 {
 			f.Src[s] = nil
 			continue
@@ -564,6 +707,11 @@ func randCase(r *rand.Rand) *Case {
 	cs.Carrier, cs.PathKind = pick.car, pick.path
 	if r.Intn(5) == 0 {
 		cs.Tail = tails[r.Intn(len(tails))]
+	}
+	// the struct value may have a past: garbage left by the caller, an earlier round (reload)
+	cs.Prefill = r.Intn(4) == 0
+	if r.Intn(4) == 0 {
+		cs.Prior = priorOf(r, cs, func(*Field) int { return r.Intn(8) << 1 })
 	}
 	return cs
 }
